@@ -61,7 +61,7 @@ class Outcome:
 class Part:
     def __init__(self, name, run, strategy=None, enumerate=None,
                  examples=None, floors=None, shrink_budget=None, max_rounds=6,
-                 min_examples=None):
+                 per_shard_min=8):
         self.name = name
         self.run = run
         self.strategy = strategy
@@ -70,6 +70,7 @@ class Part:
         self.floors = floors or {}
         self.shrink_budget = shrink_budget or {'quick': 400, 'thorough': 4000}
         self.max_rounds = max_rounds
+        self.per_shard_min = per_shard_min
         assert (strategy is None) != (enumerate is None)
 
 
@@ -325,9 +326,11 @@ def run_check(module, tier, seed, nshards=16):
     _MODULE = module
     tasks = []
     for part in module.PARTS:
-        total = part.examples[tier]
+        total = part.examples.get(tier, 0)
+        if part.strategy is not None and total <= 0:
+            continue
         if part.strategy is not None:
-            k = max(1, min(nshards, total // 8 if total >= 16 else 1))
+            k = max(1, min(nshards, total // part.per_shard_min))
             per = max(1, total // k)
             for i in range(k):
                 tasks.append((part.name, tier, i, k, seed, per))
